@@ -168,8 +168,8 @@ Definition is_ctl (c : N) : bool := (c <? 32) || (c =? 127).
    relative path contains ':', then "?" + RawQuery when it is not empty *)
 Definition first_seg_colon (p : bytes) : bool := existsb (fun c => c =? c_colon) (fst (cut_byte c_slash p)).
 
-Definition request_uri (ep q : bytes) : bytes :=
-  let path := escaped_path ep in
+Definition request_uri (p q : bytes) : bytes :=
+  let path := escaped_path p in
   (if first_seg_colon path then [c_dot; c_slash] else []) ++ path
   ++ match q with [] => [] | _ => c_qm :: q end.
 
@@ -233,10 +233,12 @@ Section Sealer.
   Variable aead_open : bytes -> bytes -> bytes -> bytes -> option bytes.
 
   (* Seal.  now1/now2: the two time.Now() readings (Unix ms); nonce: the 12 random bytes. *)
+  (* the sealed request URI is (&url.URL{Path: u.Path, RawPath: u.RawPath, RawQuery: u.RawQuery}).String()  (f75d72f;
+     RawPath is empty for the URLs the server builds), i.e. the path is escaped once *)
   Definition seal_with (key nonce nbfs exps : bytes) (u : url) : surl :=
     let ep := escaped_path (u_path u) in
     {| s_path := seal_prefix ++ ep;
-       s_req := FVal (aead_seal key nonce (request_uri ep (u_query u)) (aad_of nbfs exps));
+       s_req := FVal (aead_seal key nonce (request_uri (u_path u) (u_query u)) (aad_of nbfs exps));
        s_nbf := FVal nbfs; s_exp := FVal exps; s_nonce := FVal nonce |}.
 
   Definition seal_url (key nonce : bytes) (now1 now2 : Z) (u : url) : surl :=
